@@ -39,10 +39,10 @@ class C10(Prop):
                     'slices k[0:1], k[1:-4], k[-4:] = take/drop with truncated subtraction']
     assumptions = ['bitcoin.core.Hash returns at least 4 bytes (hypothesis hH of check_roundtrip / str theorems)',
                    'the alphabet is the one in B58_DIGITS (tied by T1 Tables.Base58)']
-    rule = ('all byte strings of length <= 2 and all alphabet strings of length <= 3 exhaustively (both directions '
+    rule = ('all byte strings of length <= 2 and all alphabet strings of length <= 3 (thorough: <= 4) exhaustively (both directions '
             'with the round trip observed); byte strings to 400 bytes with every leading-zero count; all-1 and '
             '1-prefixed strings; one invalid character at every position; valid Base58Check strings with every '
-            'single substitution (58 x len), deletion and insertion; all 256 version bytes; decoded lengths 0..6 '
+            'single substitution (58 x len), deletion, insertion, transposition, and every single-bit flip / byte deletion at the byte level (quick 208 strings, thorough 1600); all 256 version bytes; decoded lengths 0..6 '
             'with a checksum that is correct under every reading of the slices; non-trivial = non-empty argument')
 
     def setup(self):
@@ -62,7 +62,7 @@ class C10(Prop):
                 if i % nshards == shard:
                     yield c
 
-        yield from mine(self.gen_exhaustive())
+        yield from mine(self.gen_exhaustive(big))
         yield from mine(self.gen_sampled(rng, big))
         yield from mine(self.gen_invalid(rng, big))
         yield from mine(self.gen_versions(rng, big))
@@ -73,15 +73,15 @@ class C10(Prop):
                 continue
             yield from self.gen_edits(v, p)
 
-    def gen_exhaustive(self):
+    def gen_exhaustive(self, big):
         yield mk('c10.encode', '', tag='bytes<=2')
         for a in range(256):
             yield mk('c10.encode', '%02x' % a, tag='bytes<=2')
         for a in range(65536):
             yield mk('c10.encode', '%04x' % a, tag='bytes<=2')
-        for n in range(0, 4):
+        for n in range(0, 5 if big else 4):
             for t in itertools.product(ALPHA, repeat=n):
-                yield mk('c10.decode', tx(''.join(t)), tag='str<=3')
+                yield mk('c10.decode', tx(''.join(t)), tag='str<=4' if big else 'str<=3')
 
     def gen_sampled(self, rng, big):
         lens = set(range(0, 41)) | {63, 64, 65, 127, 128, 129, 255, 256, 257, 399, 400}
@@ -89,7 +89,7 @@ class C10(Prop):
         if big:
             lens |= set(range(0, 401, 7))
         for L in sorted(lens):
-            zs = range(L + 1) if (L <= 64 or big) else sorted({0, 1, 2, L - 2, L - 1, L} | {rng.randrange(L + 1) for _ in range(12)})
+            zs = range(L + 1) if (L <= 64 or big) else sorted({0, 1, 2, L - 2, L - 1, L} | {L * k // 13 for k in range(13)})
             for z in zs:
                 rest = b''
                 if L > z:
@@ -132,8 +132,10 @@ class C10(Prop):
                 for p in ([bytes(pl), b'\xff' * pl] if pl else [b'']) + [bytes(rng.randrange(256) for _ in range(pl))]:
                     yield mk('c10.roundtrip', v, p.hex(), tag='versions')
                     yield mk('c10.str', v, p.hex(), tag='versions')
+            yield mk('c10.frombytes', v, bytes([v]).hex() * 3, tag='versions')
         for v in (-1, -256, 256, 257, 1000, 1 << 32, -(1 << 31)) + tuple(x for x in self.pool if not 0 <= x <= 255):
             yield mk('c10.str', v, 'abcd', tag='version-range')
+            yield mk('c10.frombytes', v, 'abcd', tag='version-range')
             yield mk('c10.roundtrip', v, '', tag='version-range')
 
     def gen_short(self, rng, big):
@@ -154,7 +156,7 @@ class C10(Prop):
                 yield mk('c10.check', tx(enc(k)), tag='short-random')
 
     def valid_items(self, rng, big):
-        n = 200 if big else 48
+        n = 1600 if big else 208
         out = []
         plens = [0, 1, 2, 3, 4, 5, 16, 20, 20, 20, 32, 33, 40]
         for j in range(n):
@@ -179,6 +181,17 @@ class C10(Prop):
         for pos in range(len(s) + 1):
             for ch in ALPHA:
                 yield mk('c10.check', tx(s[:pos] + ch + s[pos:]), tag='insert')
+        # corruption at the byte level: every single-bit flip of every byte (version, payload and each
+        # of the four check bytes separately), byte deletion, and extension by one byte at either end
+        k = vs + H4(vs)
+        enc = self.B.encode
+        for pos in range(len(k)):
+            for bit in range(8):
+                yield mk('c10.check', tx(enc(k[:pos] + bytes([k[pos] ^ (1 << bit)]) + k[pos + 1:])), tag='bitflip')
+            yield mk('c10.check', tx(enc(k[:pos] + k[pos + 1:])), tag='byte-delete')
+        for x in (0, 1, 0xff, k[0], k[-1]):
+            yield mk('c10.check', tx(enc(bytes([x]) + k)), tag='byte-extend')
+            yield mk('c10.check', tx(enc(k + bytes([x]))), tag='byte-extend')
         # adjacent transpositions and one invalid character per position
         for pos in range(len(s) - 1):
             if s[pos] != s[pos + 1]:
@@ -207,6 +220,11 @@ class C10(Prop):
             return guarded(f)
         if op == 'c10.str':
             return guarded(lambda: 'ok:' + str(B.CBase58Data.from_bytes(bytes.fromhex(a[1]), int(a[0]))))
+        if op == 'c10.frombytes':
+            def f():
+                d = B.CBase58Data.from_bytes(bytes.fromhex(a[1]), int(a[0]))
+                return 'ok:%d,%s' % (d.nVersion, bytes(d).hex())
+            return guarded(f)
         if op == 'c10.roundtrip':
             def f():
                 d = B.CBase58Data(str(B.CBase58Data.from_bytes(bytes.fromhex(a[1]), int(a[0]))))
@@ -227,7 +245,7 @@ class C10(Prop):
             b = bytes.fromhex(a[0])
             for pos in range(len(b)):
                 yield mk(op, (b[:pos] + b[pos + 1:]).hex(), tag=c.get('tag', ''))
-        elif op in ('c10.str', 'c10.roundtrip'):
+        elif op in ('c10.str', 'c10.roundtrip', 'c10.frombytes'):
             b = bytes.fromhex(a[1])
             for pos in range(len(b)):
                 yield mk(op, a[0], (b[:pos] + b[pos + 1:]).hex(), tag=c.get('tag', ''))
